@@ -487,6 +487,16 @@ pub fn run(ctx: &Ctx) -> (Stats, Spec) {
         let inv = Inv { text: text.into(), ordering: Some(ord.into()), t: true, v: true, r: true, ..Default::default() };
         check_inv(ctx, &mut st, &inv, &format!("fixed-{}", k));
     }
+    // fixed points that take many rounds without being monotone (function-space counters, see c01.rs)
+    for (n, pattern) in [(2usize, 15usize), (2, 9), (2, 6), (3, 37), (3, 200)] {
+        for gfp in [false, true] {
+            k += 1;
+            let inv = Inv { text: super::c01::counter_text(n, pattern, gfp), t: true, v: true, channel: (k % 9) as u8, ..Default::default() };
+            if check_inv(ctx, &mut st, &inv, &format!("counter-{}", k)).is_some() {
+                st.bump("function_space_counters");
+            }
+        }
+    }
     // every name length from 1 to 130 bytes: the full table judgement (padding and column widths depend on it)
     for len in 1..=130usize {
         k += 1;
